@@ -3,11 +3,14 @@
 Parts
   runs  Hypothesis draws (method family stratified, dtype, cheap linear problem, span of any sign/direction, initial dt
         smaller or larger than the span and of either sign, dense on/off) and a short history of operations
-        {integrate(), integrate(t) ahead / behind / at the current time, set tf, set dt}. After every call that returns
-        normally the structural invariants are asserted (traj.trajectory_invariants).
+        {integrate(), integrate(t) ahead / behind / at the current time, integrate to a target 1..3 ulps away, set tf,
+        set dt}. After every call that returns normally the structural invariants are asserted
+        (traj.trajectory_invariants); a call that recorded no step must leave dt as it was.
+  resolution  spans of 20 .. 400 ulps of t far from t = 0 (float32 / float64 / longdouble) with dt of 0.3 .. 10 ulps: a
+        step below the spacing of the time axis must still advance (D37).
   long  fixed-step Euler / Heun / midpoint runs with 5 001 .. 12 000 steps (beyond the pre-allocated buffer), with and
         without dense output.
-Fixed-step explicit runs are bounded by ceil(|span| / |dt|) + 2 recorded steps per call through a counting callback
+Fixed-step explicit runs are bounded by ceil(|span| / (|dt| - ulp/2)) + 2 recorded steps per call through a counting callback
 (a deterministic non-termination guard: exceeding it is a violation); adaptive/implicit runs are capped for cost only.
 """
 import math
